@@ -78,7 +78,7 @@ def gen_case(rng, ids):
             if not l or "n" in l:
                 break
     return {"mode": mode, "pol": rng.choice([0, 1, 1]), "ver": ver, "allow_bulk": allow_bulk, "max_rep": rng.choice([1, 2, 20, 50]),
-            "fuel": rng.choice([1, 3, 40, 40, 40]), "api": api, "script": script}
+            "fuel": rng.choice([1, 3, 40, 40, 40]), "api": api, "script": script, "container": rng.choice(["list", "tuple", "iter", "gen"])}
 
 
 def oracle(c, cs, out, prop):
